@@ -19,6 +19,7 @@ type BlockSpec struct {
 	Height  uint64 `json:"height"`
 	Salt    int64  `json:"salt"`
 	NTx     int    `json:"ntx"`
+	Big     int    `json:"big_tx_bytes,omitempty"` // one additional transaction of this size (payload size classes around 64 KiB .. 3 MiB)
 	NilMeta bool   `json:"nil_metadata,omitempty"`
 	SigMode int    `json:"sig_mode"` // 0: the header's own signature, 1: another 64-byte signature, 2: empty
 }
@@ -76,7 +77,12 @@ func genSequence(rng *rand.Rand, id int, badger bool) Sequence {
 	curHeight := uint64(0)
 	hasState, hasMeta := false, map[string]bool{}
 	newSpec := func(h uint64) int {
-		s.Pool = append(s.Pool, BlockSpec{Height: h, Salt: rng.Int63(), NTx: []int{0, 0, 1, 2, 3, 5}[rng.Intn(6)], NilMeta: rng.Intn(10) == 0, SigMode: []int{0, 0, 0, 0, 1, 1, 2}[rng.Intn(7)]})
+		sp := BlockSpec{Height: h, Salt: rng.Int63(), NTx: []int{0, 0, 1, 2, 3, 5}[rng.Intn(6)], NilMeta: rng.Intn(10) == 0, SigMode: []int{0, 0, 0, 0, 1, 1, 2}[rng.Intn(7)]}
+		if rng.Intn(25) == 0 {
+			// a large payload: any size-dependent write path (separate puts, chunking, value-log thresholds) is on it
+			sp.Big = []int{60 << 10, 70 << 10, 256<<10 - 200, 256<<10 + 1, 300 << 10, 1 << 20, 1<<20 + 4096, 3 << 20}[rng.Intn(8)]
+		}
+		s.Pool = append(s.Pool, sp)
 		return len(s.Pool) - 1
 	}
 	pickHeight := func() uint64 { return heights[rng.Intn(len(heights))] }
@@ -276,6 +282,9 @@ func materialise(sp BlockSpec) (*Blk, error) {
 	}
 	for i := 0; i < sp.NTx; i++ {
 		d.Txs = append(d.Txs, rbytes(rng, []int{0, 1, 7, 40, 300}[rng.Intn(5)]))
+	}
+	if sp.Big > 0 {
+		d.Txs = append(d.Txs, rbytes(rng, sp.Big))
 	}
 	b := &Blk{Header: sh, Data: d}
 	switch sp.SigMode {
